@@ -13,10 +13,15 @@ tie    : exact correspondence (rational canonical forms) of the Lean model *and*
          rn53), thresholding also through NumPy's own quantile / median algorithm (mkevnp);
          translate/gen_C16.py additionally regenerates the dtype / stores of the threshold array
          and the 'linear' quantile expressions of the installed NumPy
+         round 5: the float arithmetic inside the ES counting (esfl: model esR rn53s, every
+         operation on times rounded to double) bit for bit, also on time stamps whose sums /
+         differences are not representable (stream `rounding`)
 search : the published counting formulas as plain loops in `Fraction`, the
          range / exchange / shift / rescaling relations on the implementation,
          the N×N matrix against the static pairwise calls, thresholding against
-         an independent quantile, long series (int16), EventSeriesClimateNetwork
+         an independent quantile, long series (int16), EventSeriesClimateNetwork;
+         round 5: the published ES double sum evaluated in IEEE double (es_formula_float) on the
+         rounding stream, bit-identical power-of-two rescaling and exchange at lag 0 there
 """
 import itertools
 import math
@@ -166,6 +171,43 @@ def es_formula(tx, ty, taumax, lag):
         for i, j in mine:
             c += Fr(1, 2) if (i in oi or j in oj) else 1
         return c * c / ((lx - 2) * (ly - 2))
+    return strength(xy, yx), strength(yx, xy)
+
+
+def es_formula_float(tx, ty, taumax, lag):
+    """the same published double sum evaluated in IEEE double (Python floats), every operation on
+    times in the order the paper writes it: t_y + lag, t_x - t_y, the four waiting times, their
+    minimum halved (exact), `0 < d <= tau`.  Independent of the Lean model and of the vectorised
+    code; agrees with `es_formula` whenever no operation rounds.  Returns the pair of doubles
+    (count / sqrt(norm), Python's correctly rounded math.sqrt and /)."""
+    tx = [float(t) for t in tx]
+    ty = [float(t) + float(lag) for t in ty]
+    lx, ly = len(tx), len(ty)
+    if lx == 0 or ly == 0:
+        return float("nan"), float("nan")
+    if lx <= 2 or ly <= 2:
+        return 0.0, 0.0
+    xy, yx, same = [], [], 0
+    for i in range(1, lx - 1):
+        for j in range(1, ly - 1):
+            tau = min(tx[i + 1] - tx[i], tx[i] - tx[i - 1],
+                      ty[j + 1] - ty[j], ty[j] - ty[j - 1]) / 2
+            tau = min(tau, float(taumax))
+            d = tx[i] - ty[j]
+            if d == 0:
+                same += 1
+            elif 0 < d <= tau:
+                xy.append((i, j))
+            elif 0 < -d <= tau:
+                yx.append((i, j))
+
+    def strength(mine, other):
+        oi = {i for i, _ in other}
+        oj = {j for _, j in other}
+        c = 0.5 * same
+        for i, j in mine:
+            c += 0.5 if (i in oi or j in oj) else 1.0
+        return c / math.sqrt((lx - 2) * (ly - 2))
     return strength(xy, yx), strength(yx, xy)
 
 
@@ -325,7 +367,9 @@ def run(ctx):
                 "float64 / float32 / int64 arrays, event series as int / bool / int8 / float arrays, "
                 "taumax in {inf,0,.5,...,5} or wide {2^-10,2^-4,64,2048}, lag in {0,+-.5,+-1,2,-1.5} or "
                 "wide {2^-10,-2^-4,100,-64,4096}; each request answered by the Lean model and by the Lean "
-                "published formula; matrix level: EventSeries objects N=1..6, T<=20 x all symmetrisations / "
+                "published formula and (ES) by the rounded model esFl; stream `rounding`: ES on time stamps "
+                "0.1*i, i/3, i/7, random doubles, offsets 1e6..2^52, cumulative sums, int64 indices with "
+                "non-representable lags, float32 arrays, dense tie-rich series — esFl bit for bit; matrix level: EventSeries objects N=1..6, T<=20 x all symmetrisations / "
                 "windows, default arguments, multi-step histories; thresholding: float64 (incl. values needing 30+ bits) / "
                 "float32 / int64..int8 / uint8 / uint16 data x "
                 "quantiles k/8, k/16 / values / types / defaults, scalar / array / list parameters, static "
@@ -333,7 +377,11 @@ def run(ctx):
                 "= both series have >= 3 events (ES) / >= 1 event (ECA) / data not constant (thresholding)")
     ctx.assumptions = [
         "event times / time stamps strictly increasing; event matrices binary",
-        "correspondence inputs are dyadic rationals (decisions exact in float64 and, where used, float32); "
+        "correspondence inputs of the pair / matrix / threshold streams are dyadic rationals (theorem "
+        "es_float_lattice: on such data the float path of event_synchronization is the exact model; for ECA "
+        "exactness of the float operations on dyadic data is still assumed); on the `rounding` stream the "
+        "operations on times do round and the rounded model esFl (rn53s: round to nearest even, no sub-normals "
+        "/ overflow; placement of the roundings modelled by hand from dtype='float') is compared bit for bit; "
         "float results compared as canonical small rationals under tolerance 1e-9 (ES, squared) / 3e-7 "
         "(ECA, float32) and, in separate requests, bit for bit (esf64 / esmatf64 / ecaf32 / ecamatf32)",
         "float64 strengths: np.sqrt and / are correctly rounded (IEEE 754); the model's sqrt53 (double nearest "
@@ -453,6 +501,10 @@ def run(ctx):
         reqs.append("esf64" + req[2:])
         impl.append("raise:" + type(r).__name__ if isinstance(r, Exception)
                     else ",".join(exact_f64(v) for v in r))
+        # round 5: the model with every operation on times rounded to double (`esFl`); on the
+        # dyadic data of this stream no operation rounds (theorem es_float_lattice)
+        reqs.append("esfl" + req[2:])
+        impl.append(impl[-1])
         meta.append(("es", x, y, ts1, ts2, tm, lag))
         ctx.case(req, nx >= 3 and ny >= 3,
                  {"call": "event_synchronization", "x": x, "y": y, "ts1": ts1, "ts2": ts2,
@@ -622,6 +674,157 @@ def run(ctx):
                    "(esSpec/ecaFormula/ecaRateFormula) == event_synchronization / "
                    "event_coincidence_analysis / _eca_coincidence_rate", reqs, impl)
     ctx.extra["pair_calls_compared"] = len(reqs)
+
+    # ------------------------------------------------------------------
+    # round 5: time stamps whose sums / differences are NOT representable — the float
+    # operations inside the counting (`ey + lag`, `ex - ey`, `np.diff`) round, and decisions
+    # `dstxy2 <= tau2` hinge on the rounding.  Model: `esFl` (= esSeriesR rn53s), bit for bit.
+    # Oracle: the published double sum in IEEE double, operation order of the paper.
+    # ------------------------------------------------------------------
+    def gen_rounding_ts(T):
+        kind = rng.choice(["tenths", "tenths", "thirds", "sevenths", "random", "offset", "bigoffset",
+                           "cumsum", "index", "f32"])
+        if kind == "index":
+            # no time stamps: int64 event indices, `ey + lag` is the first float operation
+            return None, kind
+        if kind == "f32":
+            # a float32 caller array (converted exactly by dtype='float'); steps of float32(0.1)
+            st = np.float32(rng.choice([0.1, 0.3, 1.0 / 3.0]))
+            return [float(np.float32(i) * st) for i in range(T)], kind
+        if kind == "tenths":
+            o = rng.choice([0.0, 0.0, 0.3, 100.0])
+            return [o + 0.1 * i for i in range(T)], kind
+        if kind == "thirds":
+            return [i / 3.0 for i in range(T)], kind
+        if kind == "sevenths":
+            o = rng.choice([0.0, 1e3])
+            return [o + i / 7.0 for i in range(T)], kind
+        if kind == "random":
+            return sorted(rng.random() * rng.choice([1.0, 64.0]) for _ in range(T)), kind
+        if kind == "offset":
+            o = rng.choice([1e6, 2.0 ** 30 + 0.1, 1e9])
+            return [o + 0.3 * i for i in range(T)], kind
+        if kind == "bigoffset":
+            # ulp 0.125 .. 2: most of a step of 0.7 is lost
+            o = rng.choice([1e15, 2.0 ** 52, 7e15])
+            out, t = [], o
+            for _ in range(T):
+                out.append(t)
+                t = t + rng.choice([0.7, 1.3, 2.0, 3.1])
+            return out, kind
+        t, out = rng.choice([0.0, -0.7]), []
+        for _ in range(T):
+            out.append(t)
+            t += rng.choice([0.1, 0.2, 0.3, 0.7, 1.1])
+        return out, kind
+
+    R_LAGS = [0.0, 0.0, 0.1, -0.3, 1.0 / 3.0, 0.7, 1e-3, -0.05]
+    R_TAUS = [np.inf, np.inf, 0.1, 0.05, 0.3, 0.15, 1.0, 0.35]
+    reqs, impl = [], []
+    n_round = 0
+    n_stream = 2500 if quick else 40000
+    n_dense = 1000 if quick else 12000
+    for it in range(n_stream + n_dense):
+        T = rng.choice([5, 6, 7, 8, 9, 10, 12, 14])
+        x, y = gen_pair(rng, T)
+        if rng.random() < 0.5:
+            # enough events for the counting branch
+            x = [int(v or rng.random() < 0.5) for v in x]
+            y = [int(v or rng.random() < 0.5) for v in y]
+        ts1, kind = gen_rounding_ts(T)
+        tm, lag = rng.choice(R_TAUS), rng.choice(R_LAGS)
+        if it >= n_stream:
+            # dense series on a tenths / cumulative grid, unbounded window, lag != 0: many decisions
+            # `2*(x - y) <= min gap` are ties up to the last bit, decided by the order of the
+            # roundings (own mutation M2: np.diff taken before the lag is added)
+            T = rng.choice([8, 10, 12, 14])
+            x = [int(rng.random() < 0.6) for _ in range(T)]
+            y = [int(rng.random() < 0.6) for _ in range(T)]
+            kind = "dense-tenths"
+            if rng.random() < 0.3:
+                kind, t, ts1 = "dense-cumsum", 0.0, []
+                for _ in range(T):
+                    ts1.append(t)
+                    t += rng.choice([0.1, 0.2, 0.3, 0.7, 1.1])
+            else:
+                ts1 = [0.1 * i for i in range(T)]
+            tm, lag = np.inf, rng.choice([0.1, -0.3, 1.0 / 3.0, 0.7, 1e-3, -0.05])
+        if kind == "index":
+            tm, lag = rng.choice([np.inf, 1.0, 1.5, 0.7]), rng.choice([0.1, -0.3, 1.0 / 3.0, 0.7, 1.1])
+            n1 = n2 = None
+            ts1 = ts2 = [float(i) for i in range(T)]
+        else:
+            ts1 = ts1[:T]
+            if any(b <= a for a, b in zip(ts1, ts1[1:])):
+                continue
+            ts2 = ts1
+            if rng.random() < 0.15 and kind != "f32":
+                ts2, _k = gen_rounding_ts(T)
+                ts2 = ts1 if ts2 is None else ts2[:T]
+                if any(b <= a for a, b in zip(ts2, ts2[1:])):
+                    ts2 = ts1
+            if kind == "bigoffset":
+                tm, lag = rng.choice([np.inf, 1.0, 2.5]), rng.choice([0.0, 0.7, -1.3, 2.0])
+            adt = np.float32 if kind == "f32" else float
+            n1, n2 = relayout(np.array(ts1, dtype=adt)), relayout(np.array(ts2, dtype=adt))
+            assert [float(v) for v in n1] == ts1
+        ax, ay = np.array(x), np.array(y)
+        # the arrays used for the exact rescaling / exchange relations are float64 copies
+        a1, a2 = np.array(ts1, dtype=float), np.array(ts2, dtype=float)
+        r = call(lambda: ES.event_synchronization(ax, ay, ts1=n1, ts2=n2, taumax=tm, lag=lag))
+        req = (f"esfl {enc_rats(ts1)} {enc_bools(x)} {enc_rats(ts2)} {enc_bools(y)} "
+               f"{enc_rat(tm)} {enc_rat(lag)}")
+        got = "raise:" + type(r).__name__ if isinstance(r, Exception) else \
+            ",".join(exact_f64(v) for v in r)
+        reqs.append(req)
+        impl.append(got)
+        tx, ty = times(ts1, x), times(ts2, y)
+        nx, ny = sum(x), sum(y)
+        ctx.count(f"rounding-ts:{kind}")
+        ctx.case(req, nx >= 3 and ny >= 3)
+        rep = {"call": "event_synchronization", "x": x, "y": y, "ts1": ts1, "ts2": ts2,
+               "taumax": tm, "lag": lag, "observed": got, "stream": "rounding"}
+        exp = ",".join(exact_f64(v) for v in es_formula_float(tx, ty, tm, lag))
+        if got != exp:
+            ctx.fail({"kind": "formula-float", "method": "event_synchronization"},
+                     f"event_synchronization on non-representable time stamps = {got}, the counting "
+                     f"formula evaluated in IEEE double gives {exp}", dict(rep, expected=exp))
+        # does rounding matter for this case?  (exact arithmetic on the same doubles)
+        ex_ = ",".join(show_fr(v) for v in es_formula(tx, ty, tm, lag))
+        if not isinstance(r, Exception) and ex_ != ",".join(canon_sq(v) for v in r):
+            n_round += 1
+            ctx.count("rounding-changes-the-counts")
+        if not isinstance(r, Exception):
+            for v in r:
+                if not math.isnan(v) and not (0 <= v <= 1):
+                    ctx.fail({"kind": "range", "method": "event_synchronization"},
+                             f"event synchronisation strength {v} outside [0,1]", rep)
+            # power-of-two change of the time unit: exact in IEEE double, so the doubles returned
+            # are bit-identical also where the counting rounds (theorem es_float_pow2_scale)
+            k = rng.choice([0.5, 4.0, 2.0 ** -34, 2.0 ** -20, 2.0 ** 30])
+            r6 = call(lambda: ES.event_synchronization(ax, ay, ts1=a1 * k, ts2=a2 * k,
+                                                       taumax=tm * k, lag=lag * k))
+            g6 = "raise:" + type(r6).__name__ if isinstance(r6, Exception) else \
+                ",".join(exact_f64(v) for v in r6)
+            if lag == 0:
+                # exchange at lag 0 is exact in IEEE double (rounding is odd; theorem
+                # es_float_exchange_lag0)
+                r7 = call(lambda: ES.event_synchronization(ay, ax, ts1=a2, ts2=a1, taumax=tm, lag=0.0))
+                g7 = "raise:" + type(r7).__name__ if isinstance(r7, Exception) else \
+                    ",".join(exact_f64(v) for v in r7[::-1])
+                if g7 != got:
+                    ctx.fail({"kind": "exchange-float", "method": "event_synchronization"},
+                             f"ES(x,y) = {got} but ES(y,x) reversed = {g7} on non-representable "
+                             "time stamps (lag 0)", rep)
+            if g6 != got:
+                ctx.fail({"kind": "scale-pow2-float", "method": "event_synchronization"},
+                         f"ES on non-representable time stamps changes under the exact rescaling of "
+                         f"time, lag and window by {k}: {got} -> {g6}", dict(rep, scale=k))
+    ctx.correspond("Lean esFl (every operation on times rounded to double, esSeriesR rn53s) == "
+                   "event_synchronization on time stamps with non-representable sums / differences, "
+                   "bit for bit", reqs, impl)
+    ctx.extra["rounding_stream_requests"] = len(reqs)
+    ctx.extra["rounding_stream_cases_where_rounding_changes_counts"] = n_round
 
     # ------------------------------------------------------------------
     # matrix level
@@ -1054,7 +1257,11 @@ def check_climate_network(ctx, rng, quick):
     from pyunicorn.climate import EventSeriesClimateNetwork as ESCN
     from pyunicorn.eventseries import EventSeries
     base = ESCN.SmallTestData()
-    for c in range(8 if quick else 40):
+    # every thresholding argument pattern of the wrapper on every run (seed C16-8: the default of
+    # an omitted threshold_types matters only below the median) — a fixed prefix, then random draws
+    FIXED = [(None, 0.125), (None, 0.875), ("below", 0.25), ("above", 0.375), (None, 0.375),
+             ("below", 0.75), ("above", 0.625), (None, 0.5)]
+    for c in range(10 if quick else 40):
         method = rng.choice(["ES", "ECA"])
         s = rng.choice(SYMMS_ECA if method == "ECA" or rng.random() < 0.5 else SYMMS_ES)
         q = rng.choice([0.125, 0.25, 0.375, 0.5, 0.625, 0.75, 0.875])
@@ -1062,6 +1269,8 @@ def check_climate_network(ctx, rng, quick):
         # the wrapper must hand every thresholding argument on unchanged, also when
         # threshold_types is omitted (documented default rule: below the median -> 'below')
         ttypes = rng.choice(["above", "below", None, None])
+        if c < len(FIXED):
+            ttypes, q = FIXED[c]
         thr_kw = dict(threshold_method="quantile", threshold_values=q)
         if ttypes is not None:
             thr_kw["threshold_types"] = ttypes
